@@ -359,8 +359,11 @@ class ConstantScoreMatcher(Matcher):
         return self._score
 
     def skip_to_quality(self, minquality):
+        # Returns the number of "blocks" skipped, like other matchers
         if minquality >= self._score:
             self.go_inactive()
+            return 1
+        return 0
 
     def score(self):
         return self._score
